@@ -16,12 +16,73 @@ def gen_cases(sch, tier, rng):
         h["ops"] = ops
         cases.append(p_hist.mk_case(sch, "h%d" % i, h, "rotations"))
     return cases
+def named_compressed(ctx, rng, tier):
+    """rotations of NAMED outputs in the three compression modes through the real exporter (writer-stack driver): every closed
+    output must decompress to a complete document (or be empty) and the records of all outputs, in rotation order, must be the
+    records buffered, in order, each once.  Implementation + independent parse only (the exporter model works on descriptors)."""
+    import p_C14, refcbor
+    from concurrent.futures import ThreadPoolExecutor
+    plain = common.build_impl("plain")
+    jobs = []
+    for i in range(9 if tier == "quick" else 90):
+        comp = ["none", "gzip", "xz"][i % 3]
+        maxi = rng.choice([1, 2, 5, 10000])
+        ls, names, nid, q = ["CASE n", "X new name %s 1 %d" % (comp, maxi)], [], 1, 0
+        for _ in range(rng.choice([3, 6, 12])):
+            r = rng.random()
+            if r < 0.7:
+                for _ in range(rng.choice([1, 3, 40, 120])):
+                    nm = bytes(rng.choice(b"abcdefghijklmnopqrstuvwxyz0123456789") for _ in range(40)); names.append(nm)
+                    ls.append("X qr %s %d" % (nm.hex(), q)); q += 1
+            elif r < 0.8: ls.append("X wb")
+            else: nid += 1; ls.append("X rot %d %d" % (nid, 1 if rng.random() < 0.5 else 0))
+        ls += ["X wb", "X end"]
+        jobs.append((i, comp, ls, names, nid))
+    fails = []
+    def one(job):
+        i, comp, ls, names, nid = job
+        il, files, rc = common.run_w(plain["drvw"], ls)
+        return job, il, files, rc
+    with ThreadPoolExecutor(max_workers=common.NPROC) as ex:
+        for (i, comp, ls, names, nid), il, files, rc in ex.map(one, jobs):
+            ext = {"none": "", "gzip": ".gz", "xz": ".xz"}[comp]
+            case = {"id": "n%d" % i, "script": ls, "meta": {"kind": "named/" + comp}}
+            why, got = None, []
+            if rc != 0: why = "the exporter process died (exit %d)" % rc
+            for k in range(1, nid + 1):
+                if why: break
+                fn = "out%d%s" % (k, ext)
+                if fn not in files: why = "output %s is missing (files: %s)" % (fn, sorted(files)); break
+                try: data = files[fn] if comp == "none" else p_C14.decompress_strict(comp, files[fn])
+                except Exception as e: why = "output %s is not one complete %s stream: %s" % (fn, comp, e); break
+                if not data: continue
+                try: t = refcbor.parse_all(data)
+                except Exception as e: why = "output %s is not a complete document: %s" % (fn, e); break
+                for b in t[1][2][1]:
+                    tabs = dict((kk[1], vv) for kk, vv in b[1])
+                    nr = [x[1] for x in dict((kk[1], vv) for kk, vv in tabs[2][1])[2][1]]
+                    for it in tabs[3][1]:
+                        got.append(nr[dict((kk[1], vv) for kk, vv in it[1])[7][1]])
+            if why is None and got != names:
+                why = "records read from all outputs in rotation order (%d) differ from the records buffered (%d)" % (len(got), len(names))
+            if why: fails.append((case["id"], case, why, il[-4:]))
+            yield_cases.append(case)
+    return fails
+
+yield_cases = []
 def run(ctx):
     sch = schema.load(ctx["mdl"])
     cases = gen_cases(sch, ctx["tier"], ctx["rng"])
     diffs, cases = p_hist.run_histories(ctx, cases, batch=10)
+    del yield_cases[:]
+    extra_fails = named_compressed(ctx, ctx["rng"], ctx["tier"])
+    for c in yield_cases: c["oracle"] = []
+    for f in extra_fails:
+        f[1]["oracle"] = [("C13", f[2])]
+    cases = cases + yield_cases
     return p_hist.finish(ctx, "C13", cases, diffs,
         "random exporter histories with many rotations (with and without export of the buffered block, back to back, before the first "
         "block), parameter sets added between outputs and switched, max_block_items 0..10000. Every closed output is parsed independently "
         "(one complete document or empty; preamble holds every parameter set its blocks use); the records of all outputs in rotation order "
-        "are compared with the submissions; the library's own reader is run on every output", related=("C12", "C01", "C02"))
+        "are compared with the submissions; the library's own reader is run on every output; plus rotations of NAMED outputs in the plain / gzip / xz "
+        "modes through the real exporter, each closed file decompressed and parsed independently, records in rotation order compared", related=("C12", "C01", "C02"))
